@@ -11,6 +11,9 @@ values, calendars) x values, all executed on the real pattern classes:
             representative of every computed culture class (+ invariant) x template configurations: O1, O2, O3
   fraction-digits  dense sweep of sub-second values (first 20,000 units and a stride of 9,973 over the whole range) through
             the fraction-carrying round-trip patterns of Duration / LocalTime / LocalDateTime / Instant
+  hash-collisions (merged into 'history')  per type a lattice of values (24 consecutive days x 0..5000 ns, ...) is grouped
+            by the library's own hash(); the members of every collision group are formatted and their texts parsed
+            consecutively through ONE pattern object and compared with a second object that did something else in between
   history   ONE pattern object used for a sequence of parses and formats in which every ordered pair of operations
             occurs consecutively (sequential and interleaved), every answer compared with the answer of a freshly
             created pattern that has done nothing else
@@ -56,21 +59,61 @@ TEMPLATE_CALENDARS = ("Gregorian", "Hebrew Civil", "Hijri Civil-Base15", "Coptic
 # cultures
 # ---------------------------------------------------------------------------------------------------------------
 
+def _syn(**kw):
+    def build():
+        clone = CultureInfo.invariant_culture.clone()
+        dtf = clone.date_time_format
+        for k, v in kw.items():
+            if k in ("month0", "amonth0"):
+                attr = "month_names" if k == "month0" else "abbreviated_month_names"
+                for a in (attr, attr.replace("month_names", "month_genitive_names")):
+                    lst = list(getattr(dtf, a))
+                    lst[0] = v
+                    setattr(dtf, a, lst)
+            elif k == "days":
+                longs, shorts = list(dtf.day_names), list(dtf.abbreviated_day_names)
+                longs[4], shorts[4], longs[5], shorts[5] = "FooBa", "FooBaz", "FooBar", "Foo"
+                dtf.day_names, dtf.abbreviated_day_names = longs, shorts
+            else:
+                setattr(dtf, k, v)
+        return clone
+    return build
+
+
+# customised cultures (clones of the invariant culture): shapes of culture data that no built-in culture has
+SYNTHETIC_CULTURES = {
+    "syn:no-ampm": _syn(am_designator="", pm_designator=""),
+    "syn:am-only": _syn(am_designator="AM", pm_designator=""),
+    "syn:pm-only": _syn(am_designator="", pm_designator="PM"),
+    "syn:same-ampm": _syn(am_designator="XM", pm_designator="XM"),
+    "syn:prefix-ampm": _syn(am_designator="P", pm_designator="PM"),
+    "syn:foo-ampm": _syn(am_designator="Foo", pm_designator="FooBar"),
+    "syn:timesep-dot": _syn(time_separator="."),
+    "syn:timesep-long": _syn(time_separator=" h "),
+    "syn:month-prefix": _syn(month0="Ma", amonth0="M"),
+    "syn:day-prefix": _syn(days=True),
+}
+
+
 @functools.lru_cache(maxsize=None)
 def culture(name: str):
     if name == "":
         return CultureInfo.invariant_culture
+    if name in SYNTHETIC_CULTURES:
+        return SYNTHETIC_CULTURES[name]()
     return CultureInfo.get_culture_info(name)
 
 
 @functools.lru_cache(maxsize=None)
 def props(name: str) -> T.Props:
-    return T.culture_props(culture(name))
+    p = T.culture_props(culture(name))
+    p.name = name
+    return p
 
 
 def all_culture_names():
     names = sorted({c.name for c in CultureInfo.get_cultures(CultureTypes.ALL_CULTURES)} - {""})
-    return [""] + names
+    return [""] + names + sorted(SYNTHETIC_CULTURES)
 
 
 def _class_worker(names):
@@ -211,7 +254,7 @@ def vkey(kind, law, spec, delim, extra=""):
 
 def py_roundtrip(kind, text, cname, label, v):
     cls = KCLS[kind].__name__
-    cul = "CultureInfo.invariant_culture" if cname == "" else "CultureInfo(%r)" % cname
+    cul = "CultureInfo.invariant_culture" if cname == "" else ("<customised clone %s, see vf/checks/c07.py SYNTHETIC_CULTURES>" % cname if cname.startswith("syn:") else "CultureInfo(%r)" % cname)
     return ("import pyoda_time\nfrom pyoda_time._compatibility._culture_info import CultureInfo\n"
             "from pyoda_time.text import %s\nfrom vf.models import textref as T\n\n"
             "def test_replay():\n    # needs /verif on PYTHONPATH for the tuple<->value helper only\n"
@@ -874,6 +917,149 @@ def fraction_worker(task):
 
 
 # ---------------------------------------------------------------------------------------------------------------
+# hash collisions: different values with equal hash(), found at run time, used consecutively with ONE pattern object
+# ---------------------------------------------------------------------------------------------------------------
+
+@functools.lru_cache(maxsize=None)
+def value_lattice(kind):
+    """A dense lattice of library values per type (consecutive days x small nanosecond steps, etc.)."""
+    import pyoda_time as pt
+    if kind in ("datetime", "instant"):
+        times = [pt.LocalTime.from_nanoseconds_since_midnight(n) for n in range(0, 5001)]
+        d0 = pt.LocalDate(2024, 12, 15)
+        out = []
+        for k in range(24):
+            d = d0.plus_days(k)
+            if kind == "datetime":
+                out += [d + t for t in times]
+            else:
+                base = pt.Instant.from_utc(d.year, d.month, d.day, 0, 0, 0)
+                out += [base.plus_nanoseconds(n) for n in range(0, 5001)]
+        return out
+    if kind == "time":
+        return ([pt.LocalTime.from_nanoseconds_since_midnight(n) for n in range(0, 20001)]
+                + [pt.LocalTime.from_nanoseconds_since_midnight(sec * 10**9 + k) for sec in range(0, 86400, 617) for k in (0, 1, 38, 64)])
+    if kind == "date":
+        out = [pt.LocalDate(2020, 1, 1).plus_days(k) for k in range(3000)]
+        for cid in ("Gregorian", "Julian", "Hebrew Civil", "Coptic"):
+            d0 = pt.LocalDate(2020, 1, 1).with_calendar(CalendarSystem.for_id(cid))
+            out += [d0.plus_days(k) for k in range(500)]
+        return out
+    if kind == "offset":
+        return [pt.Offset.from_seconds(x) for x in sorted(set(range(-7300, 7301)) | set(range(-64800, 64801, 60)))]
+    if kind == "duration":
+        out = []
+        for days in range(-2, 3):
+            for n in list(range(0, 3001)) + list(range(T.NS_D - 3000, T.NS_D)):
+                out.append(pt.Duration.from_nanoseconds(days * T.NS_D + n))
+        return out
+    if kind == "annual":
+        return [pt.AnnualDate(m, d) for m in range(1, 13) for d in range(1, T.Cal.get("ISO").days_in_month(2000, m) + 1)]
+    raise AssertionError(kind)
+
+
+@functools.lru_cache(maxsize=None)
+def collision_groups(kind):
+    """Groups (>= 2 members) of pairwise different lattice values with equal hash(), in lattice order."""
+    by = {}
+    for v in value_lattice(kind):
+        by.setdefault(hash(v), []).append(v)
+    groups = []
+    for h, vs in by.items():
+        distinct = []
+        for v in vs:
+            if all(v != w for w in distinct):
+                distinct.append(v)
+        if len(distinct) > 1:
+            groups.append(tuple(distinct))
+    return groups
+
+
+def collision_check(acc, keyprefix, kind, label, pat, ref, groups, max_groups=2000):
+    """Format (and parse the texts of) the members of every collision group consecutively through `pat`; `ref` is a
+    second pattern object that formats an unrelated value (different hash) between any two members."""
+    if not groups:
+        return
+    step = max(1, len(groups) // max_groups)
+    lat = value_lattice(kind)
+    sentinels = (lat[0], lat[len(lat) // 2 + 1])
+    for g in groups[::step]:
+        texts = []
+        try:
+            # phase 1: reference texts, an unrelated value (different hash) formatted before each member
+            wants = []
+            for v in g:
+                sen = sentinels[0] if hash(sentinels[0]) != hash(v) else sentinels[1]
+                ref.format(sen)
+                wants.append(ref.format(v))
+            # phase 2: the members back to back through one object
+            gots = [pat.format(v) for v in g]
+            acc.count(states=len(g), transitions=3 * len(g), evaluations=len(g))
+        except Exception as e:  # noqa: BLE001
+            if exc_origin(e) == "harness":
+                raise
+            acc.violation("%s/hash-collision-raises-%s/%s" % (keyprefix, type(e).__name__, label), "%s: formatting a collision group raised %s" % (label, type(e).__name__),
+                          {"kind": kind, "pattern": label, "group": [short(x) for x in g]})
+            return
+        bad = [i for i in range(len(g)) if gots[i] != wants[i]]
+        if bad:
+            i = bad[0]
+            acc.violation("%s/hash-collision-format/%s" % (keyprefix, label),
+                          "%s: formatting %s right after %s (equal hash, different value) through one pattern object gives %r; with "
+                          "something else formatted in between it gives %r" % (label, short(g[i]), short(g[i - 1]), gots[i], wants[i]),
+                          {"kind": kind, "pattern": label, "group": [short(x) for x in g]})
+            return
+        texts = gots
+        for v, t in zip(g, texts):
+            try:
+                a, b = pat.parse(t), ref.parse(t)
+                acc.count(transitions=2, evaluations=1)
+                same = a.success == b.success and (not a.success or a.value == b.value)
+            except Exception as e:  # noqa: BLE001
+                if exc_origin(e) == "harness":
+                    raise
+                same = True       # exceptions from parse are C08's
+            if not same:
+                acc.violation("%s/hash-collision-parse/%s" % (keyprefix, label), "%s: parse(%r) differs between the two pattern objects" % (label, t),
+                              {"kind": kind, "pattern": label, "text": t})
+                return
+        acc.count(nontrivial=1)
+
+
+COLLISION_CUSTOM = {"datetime": "uuuu'-'MM'-'dd'T'HH':'mm':'ss.fffffffff", "instant": "uuuu'-'MM'-'dd'T'HH':'mm':'ss.fffffffff'Z'",
+                    "time": "HH:mm:ss.fffffffff", "date": "uuuu'-'MM'-'dd c", "offset": "+HH:mm:ss", "duration": "-D:hh:mm:ss.fffffffff", "annual": "MM/dd"}
+
+
+def collision_patterns(kind):
+    out = [("%s.%s" % (KCLS[kind].__name__, attr), attr) for k, attr, _ in BUILTINS if k == kind]
+    out.append((COLLISION_CUSTOM[kind], None))
+    return out
+
+
+def collision_worker(task):
+    kind, pi = task
+    acc = Acc()
+    groups = collision_groups(kind)
+    if pi == 0:
+        acc.note("hash collision groups " + kind, {"lattice": len(value_lattice(kind)), "groups": len(groups)})
+        acc.outcome("hash collision groups found for %s: %d" % (kind, len(groups)))
+    if not groups:
+        return acc
+    label, attr = collision_patterns(kind)[pi]
+    try:
+        if attr is not None:
+            pat = getattr(KCLS[kind], attr)
+            t = getattr(pat, "pattern_text", None)
+            ref = KCLS[kind].create_with_invariant_culture(t) if isinstance(t, str) else getattr(KCLS[kind], attr)
+        else:
+            pat = KCLS[kind].create(label, CultureInfo.invariant_culture)
+            ref = KCLS[kind].create(label, CultureInfo.invariant_culture)
+    except AttributeError:
+        return acc
+    collision_check(acc, "C07/%s" % kind, kind, label, pat, ref, groups, 800)
+    return acc
+
+# ---------------------------------------------------------------------------------------------------------------
 # driver
 # ---------------------------------------------------------------------------------------------------------------
 
@@ -923,6 +1109,10 @@ def run(ctx):
         for acc, hacc in pmap(builtin_worker, BUILTINS):
             ctx.merge_part("builtin", acc)
             ctx.merge_part("history", hacc)
+    if not only or "hash-collisions" in only:
+        tasks = [(k, i) for k in G.KINDS for i in range(len(collision_patterns(k)))]
+        for acc in pmap(collision_worker, sorted(tasks, key=lambda t: (t[0] not in ("datetime", "instant"), t))):
+            ctx.merge_part("history", acc)
     if not only or "fraction-digits" in only:
         total = 20_000 + 10**9 // FRACTION_STRIDE // (1 if tier == "thorough" else 2)
         tasks = []
